@@ -109,6 +109,9 @@ fn history(cfg: &Cfg, rep: &mut Report, kind: Kind, h: u64, ledgers: usize) {
     rep.op(format!("deploy {} ledger={}", kind.name(), w.ledger()));
     // every past query ever made: (account or None for total, ledger, answer)
     let mut asked: Vec<(Option<usize>, u32, u128)> = vec![];
+    let explicit_ids = kind == Kind::Nft && h % 2 == 1;
+    let mut next_id: u32 = if h % 4 == 1 { 0 } else { u32::MAX - 4000 };
+    let mut burnt: Vec<u32> = vec![];
     // answers remembered for the end-of-history re-query; beyond the cap one new answer in eight
     // replaces a remembered one, so that late ledgers are re-queried too
     let asked_cap: usize = cfg.pick(12_000, 40_000);
@@ -128,7 +131,21 @@ fn history(cfg: &Cfg, rep: &mut Report, kind: Kind, h: u64, ledgers: usize) {
             let own_ids: Vec<u32> = m.nft_owner.iter().filter(|(_, o)| **o == a).map(|(i, _)| *i).collect();
             let id = if own_ids.is_empty() { 9999 } else { *rng.pick(&own_ids) };
             let op = if k < 25 || (li == 0 && oi == 0) {
-                Op::Mint { to: a, a: if kind == Kind::Nft { 1 } else if li == 0 && oi == 0 { amt(&mut rng).max(1) } else { amt(&mut rng) } }
+                // NFT histories with explicit ids (odd history numbers) carry the chosen id in `a`: a fresh one
+                // or one that was burnt. Never one that is owned right now: `Base::mint` documents that it
+                // does not check and leaves that to the caller
+                let nft_a = if explicit_ids {
+                    match rng.below(8) {
+                        1 if !burnt.is_empty() => burnt.swap_remove(rng.idx(burnt.len())) as i128,
+                        _ => {
+                            next_id += 1 + rng.below(3) as u32;
+                            next_id as i128
+                        }
+                    }
+                } else {
+                    1
+                };
+                Op::Mint { to: a, a: if kind == Kind::Nft { nft_a } else if li == 0 && oi == 0 { amt(&mut rng).max(1) } else { amt(&mut rng) } }
             } else if k < 40 && kind != Kind::ExFungible {
                 Op::Burn { from: a, a: if kind == Kind::Nft { 1 } else { amt(&mut rng) }, id }
             } else if k < 62 {
@@ -147,6 +164,7 @@ fn history(cfg: &Cfg, rep: &mut Report, kind: Kind, h: u64, ledgers: usize) {
                 Op::Delegate { who: a, to: b }
             };
             let (f, av): (&str, SVec<Val>) = match (&op, kind) {
+                (Op::Mint { to, a }, Kind::Nft) if explicit_ids => ("mint_id", args!(e, u[*to], *a as u32)),
                 (Op::Mint { to, .. }, Kind::Nft) => ("mint_seq", args!(e, u[*to])),
                 (Op::Mint { to, a }, _) => ("mint", args!(e, u[*to], *a)),
                 (Op::Burn { from, id, .. }, Kind::Nft) => ("burn", args!(e, u[*from], *id)),
@@ -170,7 +188,8 @@ fn history(cfg: &Cfg, rep: &mut Report, kind: Kind, h: u64, ledgers: usize) {
                 };
             }
             let want_ok = match (&op, kind) {
-                (Op::Mint { a, .. }, k) => k == Kind::Nft || *a >= 0,
+                (Op::Mint { .. }, Kind::Nft) => true,
+                (Op::Mint { a, .. }, _) => *a >= 0,
                 (Op::Burn { from, id, .. }, Kind::Nft) | (Op::Transfer { from, id, .. }, Kind::Nft) | (Op::TransferFrom { from, id, .. }, Kind::Nft) | (Op::BurnFrom { from, id, .. }, Kind::Nft) => m.nft_owner.get(id) == Some(from),
                 (Op::Burn { from, a, .. }, _) | (Op::Transfer { from, a, .. }, _) | (Op::TransferFrom { from, a, .. }, _) | (Op::BurnFrom { from, a, .. }, _) => *a >= 0 && m.units[*from] as i128 >= *a,
                 (Op::Delegate { who, to }, _) => m.delegate[*who] != Some(*to),
@@ -223,6 +242,7 @@ fn history(cfg: &Cfg, rep: &mut Report, kind: Kind, h: u64, ledgers: usize) {
                     (Op::Mint { to, a }, _) => m.units[*to] += *a as u128,
                     (Op::Burn { from, id, .. }, Kind::Nft) | (Op::BurnFrom { from, id, .. }, Kind::Nft) => {
                         m.nft_owner.remove(id);
+                        burnt.push(*id);
                         m.units[*from] -= 1;
                     }
                     (Op::Burn { from, a, .. }, _) | (Op::BurnFrom { from, a, .. }, _) => m.units[*from] -= *a as u128,
@@ -370,7 +390,7 @@ fn history(cfg: &Cfg, rep: &mut Report, kind: Kind, h: u64, ledgers: usize) {
 }
 
 pub fn run(cfg: &Cfg, rep: &mut Report) {
-    rep.rule = "Seeded histories on the fungible-votes example, a votes wrapper with burn, and an NFT-votes wrapper: 1-6 operations (mint/burn/transfer incl. self and full balance/transfer_from and burn_from with the spender being the recipient, the holder or a third party/delegate/re-delegate/self-delegate by 4 accounts and the token contract's own address) per ledger, gaps of {1,2,3,10,1000,10^6} ledgers; at every ledger close every account and the total are queried at {0, now-1, each recent checkpoint ledger -1/+0/+1, 8 random past ledgers}; all answers are re-queried at the end. Distinct case = (token, op, delegation shape, position of the op inside its ledger, outcome) and (token, query position {before first, at checkpoint, between, after last}).".into();
+    rep.rule = "Seeded histories on the fungible-votes example, a votes wrapper with burn, and an NFT-votes wrapper (sequential ids in even histories; in odd ones ids chosen by the caller, low or near u32::MAX, also ids that were burnt; never a live one - Base::mint leaves that to the caller): 1-6 operations (mint/burn/transfer incl. self and full balance/transfer_from and burn_from with the spender being the recipient, the holder or a third party/delegate/re-delegate/self-delegate by 4 accounts and the token contract's own address) per ledger, gaps of {1,2,3,10,1000,10^6} ledgers; at every ledger close every account and the total are queried at {0, now-1, each recent checkpoint ledger -1/+0/+1, 8 random past ledgers}; all answers are re-queried at the end. Distinct case = (token, op, delegation shape, position of the op inside its ledger, outcome) and (token, query position {before first, at checkpoint, between, after last}).".into();
     let nh = cfg.pick(4u64, 40);
     let ledgers = cfg.pick(40usize, 90);
     for (ki, kind) in [Kind::Fungible, Kind::ExFungible, Kind::Nft].iter().enumerate() {
